@@ -314,25 +314,36 @@ Proof.
 Qed.
 
 (** ** units: maximal pieces of the skeleton that begin and end at line boundaries *)
+Lemma no_nl_uint d : no_nl (NilEmpty.string_of_uint d) = true.
+Proof. induction d; cbn; auto. Qed.
+
+Lemma no_nl_sN n : no_nl (sN n) = true.
+Proof.
+  Transparent sN. unfold sN. destruct (N.to_uint n); try apply no_nl_uint. reflexivity. Opaque sN.
+Qed.
+
 Ltac deep_line Hnl :=
   apply deep_render_sem;
   [ reflexivity
-  | unfold seg_no_nl, env_cmd; cbn [forallb assoc String.eqb Ascii.eqb Bool.eqb]; rewrite ?Hnl; reflexivity ].
+  | unfold seg_no_nl, env_cmd; cbn [forallb assoc String.eqb Ascii.eqb Bool.eqb]; rewrite ?Hnl, ?no_nl_sN; reflexivity ].
 
 Ltac region_list R :=
   let L := eval vm_compute in (region_lines R) in change (region_lines R) with L.
 
 (** a unit is scanned: its lines are closed or deep, apart from the ones given first *)
-Definition unit_scans (command : string) (u : list seg) (sts : list stmt) : Prop :=
+Definition unit_scans_env (command : string) (env : list (string * string)) (u : list seg) (sts : list stmt) : Prop :=
   forall k rest,
-    scan (List.length (region_lines u) + k) Bash command (append (render (env_cmd command) u) rest)
+    scan (List.length (region_lines u) + k) Bash command (append (render env u) rest)
     = sts ++ scan k Bash command rest.
 
+Definition unit_scans (command : string) (u : list seg) (sts : list stmt) : Prop :=
+  unit_scans_env command (env_cmd command) u sts.
+
 Ltac unit_tac cmd Hc Hnl first_lines :=
-  intros k rest;
+  unfold unit_scans; intros k rest;
   rewrite render_region by (vm_compute; reflexivity);
-  match goal with |- context [region_lines ?R] =>
-    replace (List.length (region_lines R)) with (List.length (render_lines (env_cmd cmd) R)) by apply map_length
+  match goal with |- context [render_lines ?E ?R] =>
+    replace (List.length (region_lines R)) with (List.length (render_lines E R)) by apply map_length
   end;
   erewrite scan_lines_sem;
   [ | unfold render_lines;
@@ -382,3 +393,98 @@ Proof. unit_tac command Hc Hnl idtac. Qed.
 Lemma U_sub78_scans : unit_scans command U_sub78 [SEnd].
 Proof. unit_tac command Hc Hnl idtac. Qed.
 End Units.
+
+(** ** the remaining lines that carry variable text at statement indentation *)
+Ltac nonl H1 H2 :=
+  repeat (progress (cbn [append no_nl]; rewrite ?no_nl_app, ?H1, ?H2, ?no_nl_sN)); reflexivity.
+
+Lemma name_chars_app a b :
+  forallb is_name_char (list_ascii_of_string a) = true -> forallb is_name_char (list_ascii_of_string b) = true ->
+  forallb is_name_char (list_ascii_of_string (append a b)) = true.
+Proof. intros Ha Hb. induction a as [|c t IH]; cbn in *; [exact Hb|]. apply andb_prop in Ha. destruct Ha as [H1 H2]. rewrite H1, (IH H2). reflexivity. Qed.
+
+Lemma name_chars_uint d : forallb is_name_char (list_ascii_of_string (NilEmpty.string_of_uint d)) = true.
+Proof. induction d; cbn; auto. Qed.
+
+Lemma name_chars_sN n : forallb is_name_char (list_ascii_of_string (sN n)) = true.
+Proof. Transparent sN. unfold sN. destruct (N.to_uint n); try apply name_chars_uint. reflexivity. Opaque sN. Qed.
+
+Lemma name_read (v : string) c r :
+  v <> EmptyString -> forallb is_name_char (list_ascii_of_string v) = true -> is_name_char c = false ->
+  name (append v (String c r)) = Some (v, String c r).
+Proof.
+  intros Hne Hv Hc. unfold name. rewrite (take_name_app _ _ _ Hv Hc). destruct v; [congruence | reflexivity].
+Qed.
+
+(** [    local VAR=N] as it comes out of a template: the hole value is followed by the empty rest of the line *)
+Lemma scalar_sem cmd var n :
+  var = "max_fallback_level" \/ var = "state" ->
+  line_sem cmd (append "    local " (append var (append "=" (append (sN n) EmptyString)))) (Some (SScalar var n)).
+Proof.
+  intros Hvar. rewrite QuoteRT.append_nil_r. split; [|split; [|exact I]].
+  - destruct Hvar as [-> | ->]; nonl no_nl_sN no_nl_sN.
+  - intros rest. pose proof (bash_scalar_stmt var n rest Hvar) as H. unfold scalar_line in H.
+    rewrite !append_assoc in H. rewrite !append_assoc. exact H.
+Qed.
+
+(** complete -o nospace -F _<cmd> <cmd> *)
+Lemma register_sem cmd :
+  name_ok cmd ->
+  line_sem cmd (append "complete -o nospace -F _" (append cmd (append " " (append cmd EmptyString))))
+           (Some (SRegister [append "_" cmd; cmd])).
+Proof.
+  intros [Hne Hc]. pose proof (name_ok_no_nl cmd (conj Hne Hc)) as Hnl. rewrite QuoteRT.append_nil_r.
+  split; [|split; [|exact I]].
+  - nonl Hnl Hnl.
+  - intros rest. unfold bash_stmt, bz_stmt. rewrite !append_assoc.
+    do 7 (rewrite alt_skip by reflexivity). apply alt_take.
+    change ("complete -o nospace -F _" ++ cmd ++ " " ++ cmd ++ nl ++ rest)%string
+      with ("complete -o nospace -F " ++ ("_" ++ cmd) ++ String " " (cmd ++ nl ++ rest))%string.
+    rewrite pbind_lit.
+    assert (H1 : forallb is_name_char (list_ascii_of_string ("_" ++ cmd)%string) = true) by (cbn; exact Hc).
+    rewrite (pbind_some _ _ _ _ _ (name_read ("_" ++ cmd)%string " "%char _ ltac:(discriminate) H1 eq_refl)).
+    erewrite pbind_lit' by reflexivity.
+    change (cmd ++ nl ++ rest)%string with (cmd ++ String nl_char rest)%string.
+    rewrite (pbind_some _ _ _ _ _ (name_read cmd nl_char _ Hne Hc eq_refl)).
+    change (String nl_char rest) with (nl ++ rest)%string.
+    rewrite (pbind_some _ _ _ _ _ (eol_nl rest)). reflexivity.
+Qed.
+
+(** [    _<cmd><suffix> "$1" "$2"]: the call that ends a wrapper *)
+Lemma call_sem cmd suf :
+  name_ok cmd -> forallb is_name_char (list_ascii_of_string suf) = true -> no_nl suf = true ->
+  line_sem cmd (append "    _" (append cmd (append suf (append " ""$1"" ""$2""" EmptyString))))
+           (Some (SCall (append "_" (append cmd suf)))).
+Proof.
+  intros [Hne Hc] Hsuf Hsnl. pose proof (name_ok_no_nl cmd (conj Hne Hc)) as Hnl. rewrite QuoteRT.append_nil_r.
+  assert (Hv : forallb is_name_char (list_ascii_of_string (cmd ++ suf)%string) = true) by (apply name_chars_app; assumption).
+  assert (Hvne : (cmd ++ suf)%string <> EmptyString) by (destruct cmd; [congruence | discriminate]).
+  split; [|split; [|exact I]].
+  - nonl Hnl Hsnl.
+  - intros rest. unfold bash_stmt, bz_stmt. rewrite !append_assoc.
+    set (R := ("""$1"" ""$2""" ++ nl ++ rest)%string).
+    assert (E4 : ("    _" ++ cmd ++ suf ++ " ""$1"" ""$2""" ++ nl ++ rest)%string
+                 = ("    " ++ ("_" ++ cmd ++ suf) ++ String " " R)%string)
+      by (unfold R; rewrite !append_assoc; reflexivity).
+    assert (E5 : ("    _" ++ cmd ++ suf ++ " ""$1"" ""$2""" ++ nl ++ rest)%string
+                 = ("    _" ++ (cmd ++ suf) ++ String " " R)%string)
+      by (unfold R; rewrite !append_assoc; reflexivity).
+    do 3 (rewrite alt_skip by reflexivity).
+    (* X[s]=... : the name is followed by a blank, not by [ *)
+    rewrite alt_skip.
+    2:{ rewrite E4. rewrite pbind_lit.
+        assert (H1 : forallb is_name_char (list_ascii_of_string ("_" ++ cmd ++ suf)%string) = true) by (cbn; exact Hv).
+        rewrite (pbind_some _ _ _ _ _ (name_read ("_" ++ cmd ++ suf)%string " "%char _ ltac:(discriminate) H1 eq_refl)).
+        reflexivity. }
+    apply alt_take. rewrite E5. rewrite pbind_lit.
+    rewrite (pbind_some _ _ _ _ _ (name_read (cmd ++ suf)%string " "%char _ Hvne Hv eq_refl)).
+    erewrite pbind_lit' by reflexivity. unfold R. cbv beta.
+    match goal with |- context [line ?X] =>
+      replace (line X) with ("$1"" ""$2""", rest) by (symmetry; apply (line_app "$1"" ""$2""" rest eq_refl))
+    end.
+    try rewrite append_assoc. reflexivity.
+Qed.
+
+(** the first line of the script *)
+Lemma hash_sem cmd x : no_nl x = true -> line_sem cmd (append "# " x) None.
+Proof. intros H. split; [exact H|]. split; [|exact I]. intros rest. reflexivity. Qed.
